@@ -231,7 +231,12 @@ def ob_comment(chk, P, n):
                     conf = lambda r: r.get('outcome') == 'ok' and r.get('output') != 'txt [0]'
                     if kind == 'panic':
                         ob.violation('CommentBlock/panic', f'{src!r}: panics: {val}', {'elements': kinds}, sc, lambda r: r.get('outcome') == 'panic'); continue
-                    if val[0] != 'ok': continue   # a plugin stub rejected its arguments inside the comment? those errors are ignored by design; nested comment errors propagate
+                    if val[0] != 'ok':
+                        # errors of what is inside a comment are ignored by design (only an unclosed or mis-nested comment is an error, and those bodies were skipped above):
+                        # a well-formed comment must parse unless a nested comment's own stubbed plugin failed
+                        if not s2.env.get('stub_failed'):
+                            ob.violation('CommentBlock/rejected', f'{src!r}: a balanced comment is rejected', {'elements': kinds}, {'kind': 'template', 'template': src}, lambda r: r.get('stage') == 'parse' and r.get('outcome') == 'err')
+                        continue
                     first = val[1][0]
                     # render the comment's renderable: nothing written, no runtime call, none of the inner renderables rendered
                     fnr = None
